@@ -2,6 +2,8 @@
 
 from __future__ import annotations
 
+import re
+
 from ..common import DOCUMENTED_ERRORS, Recorder, call, exc_site, hyp_campaign, oracle, short
 from ..gens import table
 from ..mutate import arbitrary, mutants, single_edits
@@ -200,6 +202,12 @@ def o_mutant(rec: Recorder, case, soft=False):
             field = set(alnum + "./")
         lenient_b64 = name in ("cta_pbkdf2_sha1", "atlassian_pbkdf2_sha1", "django_pbkdf2_sha1", "django_pbkdf2_sha256", "fshp", "ldap_md5", "ldap_sha1", "ldap_salted_md5",
                                "ldap_salted_sha1", "ldap_salted_sha256", "ldap_salted_sha512", "scrypt")  # stdlib decoder ignores junk and anything after '=' padding
+        # zero-padded numbers: passlib documents their rejection (exc.ZeroPaddedRoundsError); the formats whose fields are fixed-width or
+        # free-form integers by specification are the exception
+        if cls == "int-decoration" and name not in ("bcrypt_sha256", "django_bcrypt_sha256", "fshp", "scrypt") and mtext != hs \
+                and re.sub(r"(?<![0-9A-Za-z./+=])0+(?=[0-9])", "", mtext) == hs:
+            rec.fail(f"C08/zero-padded-number-accepted/{name}", f"{name}: a hash whose cost field was padded with zeros verifies the original password ({label})", "mutant", case, short(mtext, 200), short(hs, 200), soft=soft)
+            return
         single = len(mm) == len(hm) == 1
         if single:
             # a one-character substitution is an unused-padding-bits re-encoding only at the end of a base64 salt / digest field
@@ -370,11 +378,21 @@ def t_sweep(rec, seed, tier, name):
     # quick tier: the other ident / variant forms of the format get the (cheap) truncation-at-every-position sweep only
     nvar = max([len(v) for v in table.T[name].extra.values()] + [1])
     n = 0
-    for i in range(max(nh, min(nvar, 4))):
+    idx = list(range(max(nh, min(nvar, 4))))
+    f0 = table.T[name]
+    big_salt = None
+    if f0.salt and f0.salt[0] != "int" and f0.salt[2] > f0.salt[1]:
+        big_salt = 16 * max(nvar, 1) + (min(f0.salt[2], 16) - f0.salt[1])  # fixed_settings(): the salt of maximal (<=16) size, first ident
+        big_salt = next((j for j in range(64) if len(fixed_settings(name, j).get("salt") or "") == min(f0.salt[2], 16)), None)
+        if big_salt is not None and big_salt not in idx:
+            idx.append(big_salt)
+    for i in idx:
         hs, s, ctx, secret = make_hash(name, i)
         for label, pos, m in single_edits(hs, per_pos=3 if tier == "quick" else 4):
-            if i >= nh and label != "truncate":
+            if i >= nh and i != big_salt and label != "truncate":
                 continue
+            if i == big_salt and i >= nh and label not in ("grow-token", "dup-token", "truncate"):
+                continue  # the hash with a salt of maximal size gets the field-growing edits (and truncations)
             if tier == "quick" and len(hs) > 120 and label != "subst" and pos % 2:
                 continue
             forms = [m]
